@@ -45,10 +45,12 @@ def main():
             p, dm = os.path.join(d, 'patch%d.diff' % n), os.path.join(d, 'demo%d.py' % n)
             if os.path.exists(p) and os.path.getsize(p) and os.path.exists(dm):
                 jobs.append(('%s/patch%d' % (pid, n), p, dm))
-    todo = [j for j in jobs if j[0] not in results or only_eval]
+    todo = [j for j in jobs if j[0] not in results or only_eval or '--all' in sys.argv]
     if not only_eval:
+        need = [j for j in jobs if not results.get(j[0], {}).get('confirm')]
+        todo = [j for j in jobs if j in need or j in todo]
         with cf.ThreadPoolExecutor(max_workers=5) as tex:
-            for key, line in tex.map(confirm, todo):
+            for key, line in tex.map(confirm, need):
                 results.setdefault(key, {})['confirm'] = line
                 print(key, line[:120], flush=True)
                 json.dump(results, open(resfile, 'w'), indent=1)
